@@ -2601,3 +2601,48 @@ def job_slot_sites(db, rep):
             if not ok and bad is None:
                 bad = 'job_open with every slot in use returns %s and leaves slot 1 = %s' % (_lt.one(val), slot1)
     return {'job_open:a-recycled-slot-starts-clean(numtodo=0,flaghiteof=0)': (bad is None, 'qmail-send.c:job_open', bad or 'free stale slot, full table', [])}
+
+
+# =============================================================================== per-recipient (VERP) senders
+def senderadd_sites(db, rep):
+    """senderadd() called for a sequence of deliveries whose sender strings live in the same buffer one after the other (a job
+    slot is reused by the next message): each call expands owner-@host-@[] to owner-box=domain@host from the sender and recipient
+    it is given NOW - nothing remembered from an earlier call - and copies every other sender unchanged"""
+    from rules import libtab as _lt
+    prog = db.program('qmail-send')
+    fn = prog.fn('senderadd', 'qmail-send.c')
+
+    def ref(sender, recip):
+        if len(sender) >= 4 and sender.endswith(b'-@[]'):
+            j = sender.rfind(b'@', 0, len(sender) - 4)
+            k = recip.rfind(b'@')
+            if k >= 0 and j >= 0 and j + 5 <= len(sender):
+                return sender[:j] + recip[:k] + b'=' + recip[k + 1:] + b'@' + sender[j + 1:len(sender) - 4]
+        return sender
+    seq = [(b'nb-@lists.example-@[]', b'alice@remote.example'), (b'announce-@l2.example-@[]', b'bob@r.example'), (b'joe@x.example', b'carol@c.example'),
+           (b'o-@h.example-@[]', b'dave'), (b'a-@[]', b'erin@e.example'), (b'zz-@q.example-@[]', b'f.g@h.i.example')]
+    carry = {}
+    bad = None
+    for k, (sender, recip) in enumerate(seq):
+        H = type('SH', (_lt.SAConc, _lt.Conc), {})('senderadd')
+        st = dict(carry)
+        for q in [q for q in st if q.startswith('SND[') or q.startswith('RCP[') or q.startswith('OUT.')]:
+            del st[q]
+        st.update({0: fs(('&', 'OUT')), 1: fs(('&', 'SND[0]')), 2: fs(('&', 'RCP[0]')), 'OUT.len': fs(0), 'OUT.s': fs(('&', 'OUT.s[0]'))})
+        st.update(_lt.conc_string_cells('SND', sender))
+        st.update(_lt.conc_string_cells('RCP', recip))
+        _lt._run_conc(db, rep, prog, fn, st, 'senderadd', H)
+        if len(H.ends) != 1:
+            if bad is not None:
+                break           # a decided violation stands; what follows it in the sequence runs on the state it corrupted
+            raise AnalysisBroken('senderadd call %d: %d ends' % (k + 1, len(H.ends)))
+        end = H.ends[0][0]
+        got = H.sa_bytes_store(end, 'OUT') if hasattr(H, 'sa_bytes_store') else None
+        if got is None:
+            n_ = _lt.one(end.get('OUT.len'))
+            got = bytes((_lt.one(end.get('OUT.s[%d]' % i)) or 0) & 255 for i in range(n_)) if isinstance(n_, int) and 0 <= n_ < 300 else None
+        want = ref(sender, recip)
+        if got != want and bad is None:
+            bad = 'delivery %d of the sequence (sender %r, recipient %r, sender buffer reused from the delivery before): the envelope sender becomes %r; documented (addresses(5)): %r' % (k + 1, sender, recip, got, want)
+        carry = {q: v for q, v in end.items() if '::' not in q or '::SL:' in q}
+    return {'senderadd:per-recipient-sender-from-this-call\'s-sender-and-recipient': (bad is None, 'qmail-send.c:senderadd', bad or '%d deliveries in sequence' % len(seq), [])}
